@@ -117,6 +117,28 @@ def observe(scn: dict) -> dict:
     return obs
 
 
+def judge_given(scn: dict) -> dict | None:
+    """A component rendered as an assignment-defined VARIABLE is supplied by the caller (value 100): every
+    component naming it must see the supplied value (only when all other components are recomputed ones)."""
+    iav = [k for k, kd in scn["kind"].items() if kd == "ia_var"]
+    if scn["kinds"] != ["ok"] or len(iav) != 1 or any(kd in ("ia_par",) for kd in scn["kind"].values()):
+        return None
+    k = iav[0]
+    exp = scn.get("given", {}).get(k)
+    if not exp:
+        return None
+    try:
+        with alarm(10):
+            m = build(scn)
+            got = m.get_args(variables={"x0": 1.0, k: 100.0}).to_dict()
+    except Exception as e:  # noqa: BLE001
+        return {"entry_point": "get_args(variables=...)", "supplied": k, "observed": f"{type(e).__name__}: {str(e)[:100]}"}
+    for n, v in exp.items():
+        if n in got and abs(got[n] - v) > 1e-9:
+            return {"entry_point": "get_args(variables=...)", "supplied": k, "name": n, "expected": v, "observed": got[n]}
+    return None
+
+
 def judge(scn: dict, obs: dict) -> dict | None:
     """Compare with the contract's prediction carried by the scenario. None = conforms."""
     exp_kinds = scn["kinds"]
@@ -161,7 +183,7 @@ def classify(scn: dict, detail: dict) -> str | None:
 
 def _work(scn: dict):
     obs = observe(scn)
-    bad = judge(scn, obs)
+    bad = judge(scn, obs) or judge_given(scn)
     return bad
 
 
@@ -175,12 +197,17 @@ def scenarios_from_payloads(payloads: list, comps_with_sur: bool, seed: int, all
         prov = {k: (["s1", "s2"] if k == "s" else [k]) for k in comps}
         rank = {n: (2 if n == "s2" else 1) for k in comps for n in prov[k]}
         base = dict(req=req, ord=p["ord"], prov=prov, rank=rank, benv={"p": 10},
+                    given={k: fn_to_dict(v) for k, v in fn_to_dict(p.get("given", {})).items()},
                     kinds=p["kinds"], missing=fn_to_dict(p["missing"]), values=fn_to_dict(p["values"]))
         if all_kinds:
             choices = combos
         else:
             # the first combination (all derived) realises every queue order; one more is drawn at random
             choices = [combos[0], combos[rnd.randrange(1, len(combos))]]
+            # a third rendering: one component is a variable defined by an initial assignment, the rest derived;
+            # it is also evaluated at a supplied state (see judge: 'given')
+            j = rnd.randrange(3)
+            choices.append(tuple("ia_var" if i == j else "derived" for i in range(4)))
         for c in choices:
             kind = {}
             it_c = iter(c)
